@@ -292,7 +292,483 @@ fmmu_remove = Contract(
     canaries={"clears_a_neighbour": "implies(g in fs.g_live, not bit(fs.content, g))"})
 
 
+# =============================================================================
+# Part 2 and 3: ParallelEtherCat.get_ethertype and the start/stop protocol of
+# ParallelEtherCat.run.
+#
+# Ghost shared state `w` (what all participants see):
+#   w.dir      the lock directory /run/lock/ebpf.<if>.lock exists
+#   w.others   number of OTHER participants with a lock file in it (registered)
+#   w.taken    the ethertypes (lock-file names) of those
+#   w.inst     another participant is the installer right now (between its
+#              successful rename and its obj_pin)
+#   w.pin      id of the program map pinned at /sys/fs/bpf/<if>/programs (0: none)
+#   w.att      id of the program map the attached dispatcher uses (0: none attached)
+#   w.me_reg / w.me_inst   this participant is registered / is the installer
+# INV is the global invariant every participant must preserve with each of its
+# atomic actions (guarantee); between any two actions of this participant the
+# others may change the shared state in any way that keeps INV and the stable
+# facts S1-S3 below (rely).
+import shutil
+import tempfile
+
+import ebpfcat.ebpfcat as EC
+from ebpfcat.ebpfcat import ParallelEtherCat
+
+
+class World:
+    """ghost: lock directory, pin and attached dispatcher"""
+
+
+class GhostFile:
+    """what open(path, 'x') returns"""
+
+    def __enter__(self):
+        return self
+
+    def __exit__(self, a, b, c):
+        return False
+
+    def write(self, s):
+        return None
+
+
+def INV(w):
+    return (w.others >= 0 and w.pin >= 0 and w.att >= 0
+            and implies(w.others > 0, w.dir) and implies(w.me_reg, w.dir)
+            and implies(w.inst, w.dir and w.others > 0 and not w.me_inst)
+            and implies(not w.dir, w.pin == 0 and w.att == 0)
+            and implies(w.dir and not w.inst and not w.me_inst, w.att != 0 and w.pin == w.att))
+
+
+def _w(ex):
+    w = ex.inputs.get("w")
+    if not isinstance(w, Obj):
+        raise OutOfReach("call outside the C23 start/stop contracts")
+    return w
+
+
+def interfere(ex, frame=None, node=None):
+    """the rely: any number of atomic actions of the other participants"""
+    w = _w(ex)
+    f = w.fields
+    old = {k: f[k] for k in ("dir", "others", "inst", "pin", "att")}
+    f["dir"] = fresh(ex, T.Bool, "dir'")
+    f["others"] = fresh(ex, T.Range(0, None), "others'")
+    f["inst"] = fresh(ex, T.Bool, "inst'")
+    f["pin"] = fresh(ex, T.Range(0, None), "pin'")
+    f["att"] = fresh(ex, T.Range(0, None), "att'")
+    f["taken"] = fresh(ex, T.IntSet(), "taken'")
+    _clause(ex, "INV(w)", {"w": w}, assume=True)
+    same = z3.And(lift_int(f["pin"]) == lift_int(old["pin"]), lift_int(f["att"]) == lift_int(old["att"]))
+    if f["me_reg"]:
+        # S1: a directory that holds my lock file is neither removed nor
+        # replaced, so nobody else becomes the installer; my name stays mine
+        ex.assume(lift_bool(f["dir"]))
+        ex.assume(z3.Implies(lift_bool(f["inst"]), lift_bool(old["inst"])))
+        if f["g_my_name"] is not None:
+            ex.assume(z3.Not(z3.Select(f["taken"].arr, lift_int(f["g_my_name"]))))
+    if f["me_inst"]:
+        # S3: the installer alone changes the dispatcher
+        ex.assume(z3.And(z3.Not(lift_bool(f["inst"])), same))
+    elif f["me_reg"]:
+        # S2: registered, no installer active: the dispatcher is left alone
+        ex.assume(z3.Implies(z3.Not(lift_bool(old["inst"])), same))
+
+
+def _guarantee(ex, what):
+    """after one of this participant's actions on the shared state"""
+    w = _w(ex)
+    ex.check(f"{ex.target_short}.guarantee[the invariant of the shared state holds after {what}]",
+             _clause(ex, "INV(w)", {"w": w}),
+             "INV(w): nothing is installed while the lock directory does not exist; while it exists and nobody "
+             "is installing, a dispatcher is attached and its program map is the pinned one")
+
+
+def _dispatcher_action(ex, what):
+    w = _w(ex)
+    f = w.fields
+    if f["me_inst"]:
+        return
+    ex.check(f"{ex.target_short}.guarantee[the dispatcher is changed only by the installer or while no "
+             f"participant is registered]@{what}",
+             mk_bool(z3.And(lift_int(f["others"]) == 0, z3.Not(lift_bool(f["inst"])))),
+             f"{what}: no other participant is registered at this instant")
+
+
+def _path(p):
+    """(kind, symbolic name or None) of a path value"""
+    from vc.pyvc.exec import OpaqueStr
+    flat = p.flat() if isinstance(p, OpaqueStr) else [p]
+    text = "".join(x if isinstance(x, str) else str(x) if isinstance(x, int) and not isinstance(x, bool) else "\0"
+                   for x in flat)
+    syms = [x for x in flat if isinstance(x, Sym)]
+    if text.startswith("TMPDIR"):
+        return ("tmpfile" if "/" in text else "tmpdir"), (syms[0] if syms else None)
+    if text.startswith("/run/lock/ebpf.") and text.endswith(".lock") and "/" not in text[len("/run/lock/"):]:
+        return "lockdir", None
+    if text.startswith("/run/lock/ebpf.") and text.endswith(".lock"):
+        return "lockfile", (syms[0] if syms else None)
+    if text.startswith("/sys/fs/bpf/") and text.endswith("/programs"):
+        return "pin", None
+    if text.startswith("/sys/fs/bpf/"):
+        return "bpfdir", None
+    raise OutOfReach(f"path {text!r} outside the C23 contracts")
+
+
+def m_getpid(ex, args, kw):
+    return 4242
+
+
+def m_mkdtemp(ex, args, kw):
+    return "TMPDIR"
+
+
+def m_exists(ex, args, kw):
+    kind, name = _path(args[0])
+    if kind == "tmpfile":
+        return False
+    if kind != "lockfile":
+        raise OutOfReach(f"os.path.exists of a {kind}")
+    interfere(ex)
+    f = _w(ex).fields
+    return mk_bool(z3.And(lift_bool(f["dir"]), z3.Select(f["taken"].arr, lift_int(name))))
+
+
+def m_open_x(ex, args, kw):
+    path, mode = args[0], args[1] if len(args) > 1 else "r"
+    if mode not in ("x", "w"):
+        raise OutOfReach(f"open mode {mode}")
+    kind, name = _path(path)
+    w = _w(ex)
+    f = w.fields
+    if kind == "tmpfile":
+        f["g_tmp_name"] = name          # a private directory: the name is free
+        return Obj(GhostFile, {}, "lf")
+    if kind != "lockfile":
+        raise OutOfReach(f"open('x') of a {kind}")
+    interfere(ex)
+    if ex.fork(z3.Not(lift_bool(f["dir"])), "the lock directory has gone"):
+        raise PyRaise(ex.make_exc(FileNotFoundError))
+    if mode == "x" and ex.fork(z3.Select(f["taken"].arr, lift_int(name)),
+                               "another participant has a lock file of that name"):
+        raise PyRaise(ex.make_exc(FileExistsError))
+    # mode "w" opens (and truncates) an existing file of that name as well
+    f["me_reg"] = True
+    f["g_my_name"] = name
+    _guarantee(ex, "creating the lock file")
+    return Obj(GhostFile, {}, "lf")
+
+
+def m_rename(ex, args, kw):
+    src, dst = args
+    if (_path(src)[0], _path(dst)[0]) != ("tmpdir", "lockdir"):
+        raise OutOfReach("rename outside the contract")
+    interfere(ex)
+    w = _w(ex)
+    f = w.fields
+    # rename(2) over a directory succeeds iff the target does not exist or is empty
+    ok = z3.Or(z3.Not(lift_bool(f["dir"])), lift_int(f["others"]) == 0)
+    if not ex.fork(ok, "the lock directory does not exist or is empty"):
+        raise PyRaise(ex.make_exc(OSError))
+    ex.check(f"{ex.target_short}.at_most_one_installer[no other participant is installing when the rename succeeds]",
+             mk_bool(z3.Not(lift_bool(f["inst"]))),
+             "I1: a successful rename makes this participant the only installer")
+    f["dir"] = True
+    f["me_reg"] = True
+    f["me_inst"] = True
+    f["g_installer"] = True
+    f["g_my_name"] = f["g_tmp_name"]
+    f["taken"] = fresh(ex, T.IntSet(), "taken_empty")
+    k = z3.Int("k!taken")
+    ex.assume(z3.ForAll([k], z3.Not(z3.Select(f["taken"].arr, k))))
+    return None
+
+
+def m_rmtree(ex, args, kw):
+    kind, _ = _path(args[0])
+    if kind == "tmpdir":
+        return None
+    raise OutOfReach("shutil.rmtree of the lock directory (failure of connect/attach/pin is not under contract)")
+
+
+def m_remove(ex, args, kw):
+    kind, name = _path(args[0])
+    w = _w(ex)
+    f = w.fields
+    interfere(ex)
+    if kind == "pin":
+        _dispatcher_action(ex, "os.remove(programs)")
+        if ex.fork(lift_int(f["pin"]) == 0, "no pinned program map"):
+            raise PyRaise(ex.make_exc(FileNotFoundError))
+        f["pin"] = 0
+        _guarantee(ex, "removing the pin")
+        return None
+    if kind == "lockfile":
+        ex.check(f"{ex.target_short}.removes_its_own_lock_file",
+                 mk_bool(z3.And(z3.BoolVal(bool(f["me_reg"])), lift_int(name) == lift_int(f["g_my_name"]))),
+                 "the lock file removed is the one this participant created")
+        f["me_reg"] = False
+        _guarantee(ex, "removing the lock file")
+        return None
+    raise OutOfReach(f"os.remove of a {kind}")
+
+
+def m_rmdir(ex, args, kw):
+    if _path(args[0])[0] != "lockdir":
+        raise OutOfReach("rmdir outside the contract")
+    interfere(ex)
+    w = _w(ex)
+    f = w.fields
+    ok = z3.And(lift_bool(f["dir"]), lift_int(f["others"]) == 0, z3.BoolVal(not f["me_reg"]))
+    mode = ex.opt.get("last_leaver")
+    if mode is True:
+        ex.assume(ok)
+    elif mode is False:
+        ex.assume(z3.Not(ok))
+    if not ex.fork(ok, "the lock directory is empty"):
+        raise PyRaise(ex.make_exc(OSError))
+    f["dir"] = False
+    f["g_last"] = True
+    _guarantee(ex, "removing the lock directory")
+    return None
+
+
+def m_create_map(ex, args, kw):
+    w = _w(ex)
+    m = fresh(ex, T.Range(1, None), "new_map")
+    ex.assume(z3.And(m.t != lift_int(w.fields["pin"]), m.t != lift_int(w.fields["att"])))
+    return m
+
+
+def m_obj_get(ex, args, kw):
+    if _path(args[0])[0] != "pin":
+        raise OutOfReach("obj_get outside the contract")
+    interfere(ex)
+    f = _w(ex).fields
+    if ex.fork(lift_int(f["pin"]) == 0, "nothing is pinned"):
+        raise PyRaise(ex.make_exc(FileNotFoundError))
+    # region predicate of a recorded finding: the table is fetched while
+    # another participant is in the middle of its installation
+    mode = ex.opt.get("join_during_install")
+    if mode is True:
+        ex.assume(lift_bool(f["inst"]))
+    elif mode is False:
+        ex.assume(z3.Not(lift_bool(f["inst"])))
+    return f["pin"]
+
+
+def m_obj_pin(ex, args, kw):
+    if _path(args[0])[0] != "pin":
+        raise OutOfReach("obj_pin outside the contract")
+    interfere(ex)
+    f = _w(ex).fields
+    _dispatcher_action(ex, "obj_pin(programs)")
+    if ex.fork(lift_int(f["pin"]) != 0, "a pin exists already"):
+        raise PyRaise(ex.make_exc(FileExistsError))
+    f["pin"] = args[1]
+    f["me_inst"] = False                # the installer's window ends here
+    _guarantee(ex, "pinning the program map (end of the installation)")
+    return None
+
+
+class Connect(Contract_):
+    """EtherCat.connect: binds the socket to (interface, self.ethertype)"""
+    inline = False
+    loops = {}
+
+    def apply(self, ex, args, kwargs, frame, node):
+        me = args[0]
+        _w(ex).fields["g_bound"] = me.fields.get("ethertype", getattr(me.cls, "ethertype", None))
+        return None
+
+
+class Attach(Contract_):
+    inline = False
+    loops = {}
+
+    def apply(self, ex, args, kwargs, frame, node):
+        interfere(ex)
+        f = _w(ex).fields
+        _dispatcher_action(ex, "attach")
+        f["att"] = args[0].fields["programs"]
+        _guarantee(ex, "attaching the dispatcher")
+        return None
+
+
+class Detach(Contract_):
+    inline = False
+    loops = {}
+
+    def apply(self, ex, args, kwargs, frame, node):
+        interfere(ex)
+        f = _w(ex).fields
+        _dispatcher_action(ex, "detach")
+        f["att"] = 0
+        _guarantee(ex, "detaching the dispatcher")
+        return None
+
+
+class Nop(Contract_):
+    inline = False
+    loops = {}
+
+    def apply(self, ex, args, kwargs, frame, node):
+        return None
+
+
+class RemoveShared(Contract_):
+    """LockFile.remove: deletes the mailbox lock file all participants share"""
+    inline = False
+    loops = {}
+
+    def apply(self, ex, args, kwargs, frame, node):
+        interfere(ex)
+        _dispatcher_action(ex, "LockFile.remove")
+        return None
+
+
+_MODELS += [(os.path.exists, m_exists), (os.getpid, m_getpid), (tempfile.mkdtemp, m_mkdtemp), (open, m_open_x), (os.rename, m_rename), (shutil.rmtree, m_rmtree),
+            (os.remove, m_remove), (os.rmdir, m_rmdir), (EC.create_map, m_create_map), (EC.obj_get, m_obj_get),
+            (EC.obj_pin, m_obj_pin)]
+
+_STUBS = {
+    "ebpfcat.ethercat:EtherCat.connect": Connect(),
+    "ebpfcat.xdp:XDP.attach": Attach(),
+    "ebpfcat.xdp:XDP.detach": Detach(),
+    "ebpfcat.ebpf:EBPF.close": Nop(),
+    "ebpfcat.xdp:XDP.__init__": Nop(),
+    "ebpfcat.lock:LockFile.__init__": Nop(),
+    "ebpfcat.lock:FMMULock.__init__": Nop(),
+    "ebpfcat.lock:FMMULock.remove": Nop(),
+    "ebpfcat.lock:LockFile.remove": RemoveShared(),
+}
+
+W_PARAMS = dict(dir=T.Bool, others=T.Range(0, None), inst=T.Bool, pin=T.Range(0, None), att=T.Range(0, None),
+                taken=T.IntSet(), me_reg=T.Const(False), me_inst=T.Const(False), g_my_name=T.Const(None),
+                g_tmp_name=T.Const(None), g_bound=T.Const(None), g_installer=T.Const(False),
+                g_last=T.Const(False))
+
+PEC = dict(ethertype=T.Range(0, 0xffff), addr=T.Const(("eth0", 0x88A4)), sync_groups=T.Const({}),
+           terminal_addr_range=T.Const((0, 100)))
+
+def get_ethertype():
+  return Contract(
+    ParallelEtherCat.get_ethertype,
+    params=dict(self=T.Obj(ParallelEtherCat, **PEC), lockdir=T.Const("/run/lock/ebpf.eth0.lock"),
+                w=T.Obj(World, **W_PARAMS)),
+    requires={"invariant": "INV(w)"},
+    loops={1: Loop(invariant={"not_registered_yet": "not w.me_reg", "invariant": "INV(w)"},
+                   modifies={"self.ethertype": T.Range(0, 0xffff), "lockfile": T.Int, "w.dir": T.Bool,
+                             "w.others": T.Range(0, None), "w.inst": T.Bool, "w.pin": T.Range(0, None),
+                             "w.att": T.Range(0, None), "w.taken": T.IntSet()})},
+    raises=[Raises(FileNotFoundError, iff=False)],
+    options={"inline": {"contracts.c23_parallel:GhostFile.__enter__", "contracts.c23_parallel:GhostFile.__exit__",
+                        "contracts.c23_parallel:GhostFile.write"}},
+    ensures={"an_ethertype_no_other_participant_has": "w.me_reg and not (self.ethertype in w.taken) "
+                                                      "and w.g_my_name == self.ethertype"},
+    modifies=None,
+    canaries={"keeps_the_default_ethertype": "self.ethertype == old.self.ethertype"})
+
+
+def get_ethertype_private():
+  return Contract(
+    ParallelEtherCat.get_ethertype, name="ParallelEtherCat.get_ethertype<private directory>",
+    params=dict(self=T.Obj(ParallelEtherCat, **PEC), lockdir=T.Const("TMPDIR"), w=T.Obj(World, **W_PARAMS)),
+    requires={"invariant": "INV(w)"},
+    loops={},
+    ensures={"keeps_its_ethertype_in_a_fresh_directory":
+             "self.ethertype == old.self.ethertype and w.g_tmp_name == self.ethertype and not w.me_reg"},
+    modifies=None,
+    options={"inline": {"contracts.c23_parallel:GhostFile.__enter__", "contracts.c23_parallel:GhostFile.__exit__",
+                        "contracts.c23_parallel:GhostFile.write"}})
+
+
+class GetEthertype(Contract_):
+    """get_ethertype by the two contracts proved above"""
+    inline = False
+    loops = {}
+
+    def apply(self, ex, args, kwargs, frame, node):
+        me, lockdir = args
+        w = _w(ex)
+        f = w.fields
+        kind, _ = _path(lockdir)
+        if kind == "tmpdir":
+            f["g_tmp_name"] = me.fields["ethertype"]
+            from vc.pyvc.exec import OpaqueStr
+            return OpaqueStr([me.fields["ethertype"], ".lock"])
+        if kind != "lockdir":
+            raise OutOfReach("get_ethertype of another directory")
+        ex.check(f"call[ParallelEtherCat.get_ethertype].requires[invariant]@{ex.target_short}",
+                 _clause(ex, "INV(w)", {"w": w}), "INV(w)")
+        interfere(ex)
+        if ex.fork(z3.Not(lift_bool(f["dir"])), "the lock directory has gone"):
+            raise PyRaise(ex.make_exc(FileNotFoundError))
+        e = fresh(ex, T.Range(0, 0xffff), "ethertype'")
+        me.fields["ethertype"] = e
+        ex.assume(z3.Not(z3.Select(f["taken"].arr, e.t)))
+        f["me_reg"] = True
+        f["g_my_name"] = e
+        from vc.pyvc.exec import OpaqueStr
+        return OpaqueStr([e, ".lock"])
+
+
+def run_contract(last_leaver, join_during_install=False):
+    tag = "joins during an installation" if join_during_install else \
+        "last to leave" if last_leaver else "others stay"
+    return Contract(
+        ParallelEtherCat.run, name=f"ParallelEtherCat.run<{tag}>",
+        params=dict(self=T.Obj(ParallelEtherCat, **PEC), w=T.Obj(World, **W_PARAMS)),
+        requires={"invariant": "INV(w)"},
+        raises=[Raises(FileNotFoundError, iff=False)],
+        cm=dict(
+            enter={
+                "registered_under_an_ethertype_of_its_own":
+                    "w.me_reg and w.dir and not (self.ethertype in w.taken) and w.g_my_name == self.ethertype "
+                    "and w.g_bound == self.ethertype",
+                "dispatcher_installed_and_its_table_reachable":
+                    "implies(not w.inst, w.att != 0 and w.pin == w.att and self.programs == w.att)",
+            },
+            between="interfere_spec(w)",
+            exit={
+                # `mid` is the state after the others acted while this participant was running
+                "dispatcher_and_table_stay_reachable_while_running":
+                    "implies(not mid.w.inst, mid.w.att != 0 and mid.w.pin == mid.w.att "
+                    "and mid.self.programs == mid.w.att)",
+                "deregistered": "not w.me_reg",
+                "dispatcher_stays_for_the_others":
+                    "implies(w.others > 0 and not w.inst, w.att != 0 and w.pin == w.att)",
+            },
+            exit_modes=("normal", "exception"),
+        ),
+        modifies=None,
+        options={"rely": interfere, "last_leaver": last_leaver, "join_during_install": join_during_install,
+                 },
+        canaries={"always_the_installer": "w.g_installer"})
+
+
+def interfere_spec(w):
+    return None
+
+
+@lib.model(interfere_spec)
+def _m_interfere_spec(ex, args, kw):
+    interfere(ex)
+    return None
+
+
 ASSUMPTIONS = [
+    "POSIX atomic actions of the start/stop protocol: rename(2) of a directory succeeds iff the target does not exist "
+    "or is an empty directory; rmdir succeeds iff the directory is empty; open(..., 'x') fails iff the name exists; "
+    "BPF_OBJ_PIN fails if the path exists, BPF_OBJ_GET if it does not; attaching replaces the attached program",
+    "rely of the start/stop protocol (contracts/c23_parallel.py, interfere): the other participants keep INV and "
+    "(S1) neither remove nor replace a lock directory that holds this participant's lock file, (S2) leave the "
+    "dispatcher alone while a participant is registered and nobody installs, (S3) do not touch it while this "
+    "participant installs.  By symmetry this is the guarantee checked for the one participant; where the real code "
+    "does not satisfy it the obligation fails (two recorded findings)",
+    "failure of connect / attach / obj_pin during the installation (the shutil.rmtree(lockdir) path) and crashes of "
+    "participants are not under contract",
     "POSIX atomic actions: open(O_CREAT|O_EXCL) creates the file iff it does not exist; lockf(LOCK_EX) returns only "
     "when no other process holds a lock on the range; pread/pwrite/ftruncate act on the file contents as specified",
     "rely: every other participant reads and writes the bitmap only while holding the lock and re-establishes the "
@@ -301,8 +777,21 @@ ASSUMPTIONS = [
     "a participant that crashes keeps its address number marked (its window is lost, never shared); termination of "
     "the search for a free number (random retries) is not proved",
 ]
-BOUNDS = []
+BOUNDS = ["the number of participants is unbounded (the others are the rely); every obligation concerns the "
+          "actions of one participant between arbitrary actions of the others"]
 
 
-def verify_rest(api, rep, tier):
-    pass
+def install_stubs():
+    _STUBS["ebpfcat.ebpfcat:ParallelEtherCat.get_ethertype"] = GetEthertype()
+    for k, v in _STUBS.items():
+        _SAVED["stub:" + k] = REGISTRY.get(k)
+        REGISTRY[k] = v
+
+
+def uninstall_stubs():
+    for k in _STUBS:
+        old = _SAVED.pop("stub:" + k, None)
+        if old is None:
+            REGISTRY.pop(k, None)
+        else:
+            REGISTRY[k] = old
